@@ -104,7 +104,13 @@ class C19(Property):
     PID = 'C19'
     QUICK_BUDGET_S = 45
     THOROUGH_BUDGET_S = 700
-    RULE = ('three kinds of case. sl: a text (list of code points) given to iter_splitlines; exhaustive over '
+    RULE = ('six kinds of case (sl rl jl described first; then rf = reverse_iter_lines(preseek=False) with the file '
+            'position at every offset of small binary contents x block sizes 1, 2, 3, len+1, and random ones; in = '
+            'indent(text, margin, newline, key) over all short texts x 3 margins x 3 newlines x key bool/always, and random '
+            'longer ones; js = JSONLIterator(rel_seek=num/den) forward and reverse on text-mode files of single-byte '
+            'characters with a line break at or after the target, all files of <= 2-3 lines over 8 tokens x 9 fractions, '
+            'records of 4090..12289 bytes so that the line break lies in the 1st/2nd/3rd block the alignment loop reads, '
+            'and random ones; non-trivial = both directions yield something). sl: a text (list of code points) given to iter_splitlines; exhaustive over '
             '12 symbols (a, space, 2, 8, 9, each of the 7 line-break characters) up to length 4 (5 thorough), 8 symbols at length 5 (6 thorough), then '
             'random longer texts incl. other Unicode; non-trivial = the text contains a line break. rl: file '
             'content x blocksize x mode (binary/text, BytesIO or real file) given to reverse_iter_lines; '
@@ -137,11 +143,15 @@ class C19(Property):
                    'the oracle demands only blocksize independence there; a JSONL content with a line that starts (after JSON '
                    'whitespace) with a character lstrip() removes but JSON does not skip (\\v \\f, in text mode also FS GS RS US NEL '
                    'NBSP LS PS ...) is judged by the correspondence only',
-                   'json.loads ignores a trailing line break: false for binary lines with NUL bytes (UTF-16/32 detection), where '
-                   'forward mode (line with break) and reverse mode (line without) decode differently - known finding '
-                   'C19-jsonl-break-dependent-decoding, proposed repair in notes/proposed_fixes/']
-    CORRESPONDENCE_NAME = ('C19.Driver (iterSplitlines / reverseIterLines / jsonlForward, jsonlReverse) vs '
-                           'boltons.strutils.iter_splitlines, boltons.jsonutils.reverse_iter_lines, JSONLIterator')
+                   'rel_seek (js cases) is exercised where the alignment of the code terminates and works: text-mode files of '
+                   'single-byte characters, 0 <= rel_seek < 1, a line break at or after int(size*rel_seek) (computed in floats by '
+                   'the harness, like the code); the oracle asks only that reverse (reversed) + forward from the same rel_seek '
+                   'make up the objects of the file, wherever exactly the implementation aligns',
+                   'preseek=False (rf cases) is exercised on binary files only (after detach() the position of a text file is '
+                   'that of its read-ahead buffer)']
+    CORRESPONDENCE_NAME = ('C19.Driver (iterSplitlines, indent / reverseIterLines, reverseIterLinesText, reverseIterLinesFrom / '
+                           'jsonlForward, jsonlReverse, jsonlRelSeek) vs boltons.strutils.iter_splitlines, indent, '
+                           'boltons.jsonutils.reverse_iter_lines, JSONLIterator')
 
     def __init__(self, tier, seed):
         super().__init__(tier, seed)
